@@ -132,6 +132,12 @@ impl Property for C01 {
                 "E0072" => 4,
                 _ => 5,
             };
+            // a lexer error (a character the compiler does not accept in an identifier) explains
+            // whatever follows it
+            if let Some(d) = diags.iter().find(|d| d.message.starts_with("unknown start of token")) {
+                j.violations.push(Violation::new("rustc:error", format!("{} | gen.rs:{} | {}", d.message, d.line, d.snippet)));
+                return Ok(j);
+            }
             let mut codes: Vec<String> = diags.iter().map(|d| if d.code.is_empty() { "error".to_string() } else { d.code.clone() }).collect();
             codes.sort_by(|a, b| (prio(a), a.clone()).cmp(&(prio(b), b.clone())));
             codes.dedup();
